@@ -170,7 +170,8 @@ class FortranCodegenConservative(FortranCodegen):
         if o.source and o.source.status == SourceStatus.INVALID_CHILDREN:
             # Recapture header and footer from source
             header = o.source.string.splitlines()[0]
-            footer = o.source.string.splitlines()[o.source.lines[1]-o.source.lines[0]]
+            # A loop that ends in a labelled statement has no `END DO`: that statement is part of the body
+            footer = o.source.string.splitlines()[o.source.lines[1]-o.source.lines[0]] if o.has_end_do else None
 
             pragma = self.visit(o.pragma, **kwargs)
             pragma_post = self.visit(o.pragma_post, **kwargs)
